@@ -179,6 +179,7 @@ func workerMain(h *Harness) {
 	in := bufio.NewReaderSize(os.Stdin, 1<<20)
 	out := bufio.NewWriter(os.Stdout)
 	seenSig := map[string]int{}
+	selfChecked := false
 	for {
 		line, err := in.ReadBytes('\n')
 		if err != nil {
@@ -197,6 +198,22 @@ func workerMain(h *Harness) {
 		base := h.Config(sc, *flagTier)
 		rep := reply{Outcomes: map[string]int{}, Inconclusive: map[string]int{}}
 		stack := req.Stack
+		if !selfChecked && len(stack) > 0 {
+			// determinism self-check: the same prefix must yield the same execution (history hash, steps, choices)
+			selfChecked = true
+			c1 := base
+			c1.Prefix = stack[len(stack)-1]
+			r1, _ := h.Run(sc, c1)
+			r2, _ := h.Run(sc, c1)
+			if r1.Hash != r2.Hash || r1.Steps != r2.Steps || len(r1.Choices) != len(r2.Choices) {
+				rep.EngineErr = fmt.Sprintf("uncontrolled nondeterminism: scenario %s prefix %v ran twice with different histories (hash %x/%x, steps %d/%d, choices %d/%d)", sc.Name, c1.Prefix, r1.Hash, r2.Hash, r1.Steps, r2.Steps, len(r1.Choices), len(r2.Choices))
+				b, _ := json.Marshal(rep)
+				out.Write(b)
+				out.WriteByte('\n')
+				out.Flush()
+				return
+			}
+		}
 		for len(stack) > 0 && rep.Execs < req.Quantum {
 			prefix := stack[len(stack)-1]
 			stack = stack[:len(stack)-1]
